@@ -12,7 +12,9 @@
   obstacle, lanelet (bounds, line markings, predecessor / successor / adjacent, stop line, types, users, sign / light
   references), traffic sign, traffic light (cycle), intersection (incomings, crossings), planning problem, and the document
   body (everything below `<commonRoad>` except `location` and `scenarioTags`, which the body codec treats as foreign context).
-  Not modelled: the root attributes, `location`, `scenarioTags`, 3-D points, the 2018b reader branch, lanelet assignment.
+  and the whole file: root attributes, `location` (geo transformation, environment), `scenarioTags`, body.
+  Points carry an optional z (written for lanelet bounds and state positions, dropped by the writer elsewhere).
+  Not modelled: the 2018b reader branch, lanelet assignment, the byte level.
 -/
 import CRModel.Codec
 
@@ -52,13 +54,26 @@ def lightDirections : List String := ["right", "straight", "left", "leftStraight
 
 /-! ## points and shapes -/
 
+/-- a point: x, y and, for 3-D geometry, z -/
 structure Pt where
   x : Real
   y : Real
+  z : Option Real
 
+/-- children of a point element as `PointFactory` reads them (file_reader_xml.py:1629-1638): x, y, optional z -/
+def ptKidsC (P : Params) : Codec (Real × Real × Option Real) :=
+  Codec.pair (Codec.child "x" (ECodec.ofText (Prim.dec P)))
+    (Codec.pair (Codec.child "y" (ECodec.ofText (Prim.dec P))) (Codec.optional "z" (ECodec.ofText (Prim.dec P))))
+
+/-- a point written with all its coordinates: `Point.create_from_numpy_array(...).create_node()` (file_writer_xml.py:1037-1066),
+    used for lanelet bounds and the exact position of a state -/
+def pt3E (P : Params) : ECodec Pt :=
+  ECodec.ofKids ((ptKidsC P).iso (fun p => (p.x, p.y, p.z)) (fun a => ⟨a.1, a.2.1, a.2.2⟩))
+
+/-- a point of which the writer only writes x and y (`Point(p[0], p[1])`: polygon vertices, stop line, sign / light position;
+    `center[0]`, `center[1]` of a rectangle / circle); the reader would still take a z -/
 def ptE (P : Params) : ECodec Pt :=
-  ECodec.ofKids ((Codec.pair (Codec.child "x" (ECodec.ofText (Prim.dec P))) (Codec.child "y" (ECodec.ofText (Prim.dec P)))).iso
-    (fun p => (p.x, p.y)) (fun a => ⟨a.1, a.2⟩))
+  ECodec.ofKids ((ptKidsC P).iso (fun p => (p.x, p.y, (none : Option Real))) (fun a => ⟨a.1, a.2.1, a.2.2⟩))
 
 inductive Shape1 where
   | rect (l w o : Real) (c : Pt)
@@ -68,12 +83,18 @@ inductive Shape1 where
 /-- `x != 0.0` on a float, seen through its repr -/
 def isZeroRepr (s : Real) : Bool := s == "0.0" || s == "-0.0" || s == "0" || s == "-0"
 
-def zeroPt : Pt := ⟨"0.0", "0.0"⟩
+def zeroPt : Pt := ⟨"0.0", "0.0", none⟩
+
+/-- `not np.any(np.asarray(center) != 0.0)` -/
+def isOrigin (c : Pt) : Bool :=
+  isZeroRepr c.x && isZeroRepr c.y && (match c.z with
+    | none => true
+    | some v => isZeroRepr v)
 
 /-- the `center` child: always written for static shapes; for the shape of a dynamic obstacle only if it is not the origin
     (file_writer_xml.py RectangleXMLNode / CircleXMLNode); absent = origin (file_reader_xml.py:1372-1375, 1385-1388) -/
 def centerC (P : Params) (dyn : Bool) : Codec Pt :=
-  Codec.optChild "center" (ptE P) (fun c => !dyn || !(isZeroRepr c.x && isZeroRepr c.y)) zeroPt
+  Codec.optChild "center" (ptE P) (fun c => !dyn || !isOrigin c) zeroPt
 
 /-- the `orientation` child of a rectangle, written with `decimal_to_str` (all digits, plain notation) -/
 def orientC (P : Params) (dyn : Bool) : Codec Real :=
@@ -241,7 +262,7 @@ def propName (tag : String) : String :=
 
 /-- children of `<position>`: `create_state_node` (file_writer_xml.py:944-951), `_write_goal_position` (868-899) -/
 def encPos (P : Params) : Pos → List Xml
-  | .point p => [(ptE P).el "point" p]
+  | .point p => [(pt3E P).el "point" p]
   | .region s => (shapeC P false).enc s
   | .lanelets ids => ids.map (refE.el "lanelet")
 
@@ -250,7 +271,7 @@ def encPos (P : Params) : Pos → List Xml
 def decPos (P : Params) (goal : Bool) (kids : List Xml) : Option Pos :=
   match find "point" kids with
   | some x =>
-    match (ptE P).decE x with
+    match (pt3E P).decE x with
     | some p => some (.point p)
     | none => none
   | none =>
@@ -386,7 +407,7 @@ def signalE : ECodec Signal :=
 /-! ## what a state becomes after one write → read -/
 
 def normPos (P : Params) : Pos → Pos
-  | .point p => .point ((ptE P).norm p)
+  | .point p => .point ((pt3E P).norm p)
   | .region s => .region ((shapeC P false).norm s)
   | .lanelets ids => .lanelets ids
 
@@ -531,7 +552,7 @@ structure Bound where
 /-- `<leftBound>` / `<rightBound>`: the line marking is written unless it is `unknown`, absent = `unknown`
     (file_writer_xml.py:410-437, file_reader_xml.py:740-753) -/
 def boundE (P : Params) : ECodec Bound :=
-  ECodec.ofKids ((Codec.pair (Codec.many "point" (ptE P))
+  ECodec.ofKids ((Codec.pair (Codec.many "point" (pt3E P))
     (Codec.optChild "lineMarking" (ECodec.ofText (Prim.enum lineMarkings)) (fun m => m != "unknown") "unknown")).iso
     (fun b => (b.pts, b.marking)) (fun a => ⟨a.1, a.2⟩))
 
